@@ -132,8 +132,9 @@ def Browser.onDatagram (c : Cache) (b : Browser) (now : Ms) (recs : List Rec) : 
 
 /-- the periodic purge: `_async_cache_cleanup` reports every purged record as `(record, record)` -/
 def Browser.onPurge (c : Cache) (b : Browser) (now : Ms) : Except PyExc BrowserOut := do
-  let out ← expire (Cache.ops lower) c now
-  let b1 := Browser.updateRecords lower possible out.1 now b (out.2.map (fun r => (r, some r)))
+  -- `now` is read once: the cache is swept with the instant the listeners are told (leaves `purge_expire_now`, `purge_updates_now`)
+  let out ← expire (Cache.ops lower) c (Gen.Cache.purge_expire_now now)
+  let b1 := Browser.updateRecords lower possible out.1 (Gen.Cache.purge_updates_now now) b (out.2.map (fun r => (r, some r)))
   pure { cache := out.1, browser := (Browser.complete b1).1, callbacks := (Browser.complete b1).2 }
 
 end
